@@ -54,6 +54,8 @@ struct Call { id: u64, op: String, scope: String, h: JoinHandle<(J, Back)>, canc
 pub struct Exec {
     pub log: Vec<J>,
     t0: tokio::time::Instant,
+    cpu_mark: u64,
+    alloc_mark: usize,
     side_listener: bool,
     peer: Option<DuplexStream>,
     buf: Vec<u8>,
@@ -106,9 +108,9 @@ fn err_json<E: std::fmt::Debug>(e: &E) -> J {
     let cond = d.find("Symbol(\"").map(|i| { let r = &d[i + 8..]; r[..r.find('"').unwrap_or(0)].to_string() })
         .or_else(|| d.find("condition: ").map(|i| { let r = &d[i + 11..]; r[..r.find(',').unwrap_or(r.len())].to_string() }))
         .unwrap_or_default();
-    json!({"ok": false, "class": class_of(&d), "cond": cond, "dbg": d.chars().take(220).collect::<String>()})
+    json!({"ok": false, "class": class_of(&d), "cond": cond, "idle_timeout": d.contains("IdleTimeout"), "dbg": d.chars().take(220).collect::<String>()})
 }
-fn ok_json() -> J { json!({"ok": true, "class": "", "cond": "", "dbg": ""}) }
+fn ok_json() -> J { json!({"ok": true, "class": "", "cond": "", "idle_timeout": false, "dbg": ""}) }
 
 pub fn build_message(m: u32, len: usize, shape: &str) -> Message<Body<Value>> {
     let body = Binary::from(pattern(m, len));
@@ -143,7 +145,7 @@ fn identify(msg: &Message<Body<Value>>) -> (i64, usize, bool) {
 
 impl Exec {
     pub fn new(listener: bool) -> Self {
-        Exec { log: vec![], t0: tokio::time::Instant::now(), side_listener: listener, peer: None, buf: vec![], eof_logged: false, sh: Shifts::default(), conn: None, sessions: HashMap::new(),
+        Exec { log: vec![], t0: tokio::time::Instant::now(), cpu_mark: crate::mon::thread_cpu_ns(), alloc_mark: crate::mon::alloc_mark(), side_listener: listener, peer: None, buf: vec![], eof_logged: false, sh: Shifts::default(), conn: None, sessions: HashMap::new(),
                senders: HashMap::new(), receivers: HashMap::new(), held: HashMap::new(), futs: HashMap::new(), calls: vec![], next_call: 1, roles: HashMap::new(),
                pending_begins: vec![], eut_channel: HashMap::new(), eut_dids: HashMap::new(), eut_frames: HashMap::new(), eut_noi: HashMap::new(),
                out_progress: HashMap::new(), sent_queue: HashMap::new(), link_of_handle: HashMap::new(), pending_attach: vec![], msg_shapes: HashMap::new(), names: HashMap::new(), eut_sender_dc: HashMap::new(), peer_link_name: HashMap::new(), gates: HashMap::new(), batch_calls: vec![], calls_scope: HashMap::new(), await_of: HashMap::new() }
@@ -286,7 +288,13 @@ impl Exec {
         self.collect_calls().await;
         let alive = tokio::runtime::Handle::current().metrics().num_alive_tasks();
         let pending: Vec<u64> = self.calls.iter().map(|c| c.id).collect();
-        self.emit(json!({"ev": "Quiesce", "alive": alive, "pending": pending}));
+        // resource monitors since the previous quiescence point
+        let cpu = crate::mon::thread_cpu_ns();
+        let cpu_ms = (cpu - self.cpu_mark) / 1_000_000;
+        self.cpu_mark = cpu;
+        let peak_kb = crate::mon::alloc_peak_since(self.alloc_mark) / 1024;
+        self.alloc_mark = crate::mon::alloc_mark();
+        self.emit(json!({"ev": "Quiesce", "alive": alive, "pending": pending, "cpu_ms": cpu_ms.min(1 << 30), "peak_kb": peak_kb.min(1 << 30), "panics": crate::mon::panic_count()}));
         PROGRESS.fetch_add(1, Ordering::Relaxed);
     }
     fn start(&mut self, op: &str, scope: &str, args: J, cancel: Option<oneshot::Sender<()>>, h: JoinHandle<(J, Back)>) {
@@ -610,7 +618,20 @@ impl Exec {
             "PRaw" => { let b = bytes(&e["b"]); let ok = self.peer_write(&b).await; self.emit(json!({"ev": "PRaw", "n": b.len(), "tag": e.get("tag").cloned().unwrap_or(json!("")), "written": ok})); }
             "PEof" => { if let Some(mut io) = self.peer.take() { let _ = io.shutdown().await; if e.get("keep_read").and_then(|x| x.as_bool()).unwrap_or(true) { self.peer = Some(io); } } self.emit(json!({"ev": "PEof"})); }
             "PReset" => { self.drain().await; self.peer = None; self.emit(json!({"ev": "PReset"})); }
-            "Advance" => { let ms = e["ms"].as_u64().unwrap_or(0); tokio::time::sleep(Duration::from_millis(ms)).await; self.emit(json!({"ev": "Advance", "ms": ms})); }
+            "Advance" => {
+                // virtual time passes in steps so that frames written meanwhile get accurate timestamps
+                let ms = e["ms"].as_u64().unwrap_or(0);
+                let step = e.get("step").and_then(|x| x.as_u64()).unwrap_or((ms / 8).max(1));
+                self.emit(json!({"ev": "Advance", "ms": ms, "step": step}));
+                let mut left = ms;
+                while left > 0 {
+                    let d = step.min(left);
+                    tokio::time::sleep(Duration::from_millis(d)).await;
+                    left -= d;
+                    self.drain().await;
+                    self.collect_calls().await;
+                }
+            }
             "HookArm" => { let n = e["name"].as_str().unwrap_or("").to_string(); let g = fe2o3_amqp::verif::arm(&n); self.gates.insert(n.clone(), g); self.emit(json!({"ev": "Hook", "op": "arm", "name": n, "hits": 0})); }
             "HookRelease" => { let n = e["name"].as_str().unwrap_or("").to_string(); let hits = self.gates.get(&n).map(|g| { let h = g.hits.load(Ordering::SeqCst); g.release(); h }).unwrap_or(0); fe2o3_amqp::verif::disarm(&n); self.gates.remove(&n); self.emit(json!({"ev": "Hook", "op": "release", "name": n, "hits": hits})); }
             "Settle" => {}
@@ -618,15 +639,27 @@ impl Exec {
         }
     }
 
-    pub async fn run(mut self, script: &[J]) -> Vec<J> {
+    pub async fn run(mut self, script: &[J], final_ms: u64) -> Vec<J> {
         self.emit(json!({"ev": "Init", "side": if self.side_listener { "listener" } else { "client" }}));
         for e in script {
             // events flagged "nosettle" are issued back to back with the next one
             self.event(e).await;
             if !e.get("nosettle").and_then(|x| x.as_bool()).unwrap_or(false) { self.settle().await; }
         }
-        // final: give pending calls a long virtual time to finish (1 h), then report what is still pending
-        tokio::time::sleep(Duration::from_secs(3600)).await;
+        // final: give pending calls a long virtual time to finish (default 1 h, in steps so that frames written meanwhile
+        // are stamped accurately), then report what is still pending
+        if !self.calls.is_empty() && final_ms > 0 {
+            let step = (final_ms / 60).max(1);
+            self.emit(json!({"ev": "Advance", "ms": final_ms, "step": step}));
+            let mut left = final_ms;
+            while left > 0 && !self.calls.is_empty() {
+                let d = step.min(left);
+                tokio::time::sleep(Duration::from_millis(d)).await;
+                left -= d;
+                self.drain().await;
+                self.collect_calls().await;
+            }
+        }
         self.settle().await;
         self.emit(json!({"ev": "End", "pending": self.calls.iter().map(|c| json!({"call": c.id, "op": c.op, "scope": c.scope})).collect::<Vec<_>>(), "panics": crate::mon::panic_count()}));
         fe2o3_amqp::verif::disarm_all();
@@ -670,8 +703,9 @@ pub fn main(args: &[String]) -> Result<(), String> {
         let rt = tokio::runtime::Builder::new_current_thread().enable_all().start_paused(true).build().unwrap();
         let listener = sc["side"] == "listener";
         let evs = sc["ev"].as_array().cloned().unwrap_or_default();
+        let final_ms = sc.get("final_ms").and_then(|x| x.as_u64()).unwrap_or(3_600_000);
         let log = rt.block_on(async move {
-            Exec::new(listener).run(&evs).await
+            Exec::new(listener).run(&evs, final_ms).await
         });
         rt.shutdown_background();
         let mut s = String::new();
